@@ -189,7 +189,7 @@ func tuneStormPrograms(c *RunCtx, nq, nt int) {
 		c.Program(fmt.Sprintf("tune-storm/%d", v), func(p *Prog) {
 			cfg := drawTuneStorm(p.Rng)
 			p.Explore(func(pl Plan) *Result { return epTuneStorm(c, cfg) },
-				ExploreOpts{Base: 4, Noise: c.Q(20, 100), K: c.Q(4, 8), Funcs: []string{"TunePool", "PopBackIfAbove", "numMinIdleWorkers", "notifyToPullNextJobs", "processNextJob", "freePoolNode"}, Pairs: c.Q(30, 150), MaxCases: c.Q(200, 3000)})
+				orRace(ExploreOpts{Base: 4, Noise: c.Q(20, 100), K: c.Q(4, 8), Funcs: []string{"TunePool", "PopBackIfAbove", "numMinIdleWorkers", "notifyToPullNextJobs", "processNextJob", "freePoolNode"}, Pairs: c.Q(30, 150), MaxCases: c.Q(200, 3000)}))
 		})
 	}
 }
@@ -209,10 +209,17 @@ func (c bindStormCfg) String() string {
 	return fmt.Sprintf("bind-storm strategy=%s conc=%d first=%d binders=%v jobs=%v two=%v", stratNames[c.Strategy], c.Conc, c.First, c.Kinds, c.Jobs, c.Two)
 }
 
+// bindStormDist: only distributed queues are bound by the storm (C13)
+var bindStormDist bool
+
 func drawBindStorm(r *Rng) bindStormCfg {
 	c := bindStormCfg{Strategy: r.Intn(3), Conc: Pick(r, 1, 1, 2, 3), First: Pick(r, 2, 4, 8, 12)}
 	for i := 0; i < Pick(r, 2, 2, 3, 4, 5); i++ {
-		c.Kinds = append(c.Kinds, QK(r.Intn(6)))
+		if bindStormDist {
+			c.Kinds = append(c.Kinds, Pick(r, QDist, QDistPrio))
+		} else {
+			c.Kinds = append(c.Kinds, QK(r.Intn(6)))
+		}
 		c.Jobs = append(c.Jobs, Pick(r, 1, 1, 2, 3))
 		c.Two = append(c.Two, r.Chance(25))
 	}
@@ -308,6 +315,7 @@ func epBindStorm(c *RunCtx, cfg bindStormCfg) *Result {
 			e.Fail("C15", "queue-not-selected", "bind-storm", det)
 		}
 		if notRun > 0 {
+			e.Fail("C13", "announced-not-processed", "bind-storm", det)
 			e.Fail("C03", "not-run-at-quiescence", "bind-storm", det)
 			e.Fail("C01", "lost", "bind-storm", det)
 			e.Fail("C15", "starved", "bind-storm", det)
@@ -345,12 +353,14 @@ func epBindStorm(c *RunCtx, cfg bindStormCfg) *Result {
 	return e.Result(k.Sample(cfg.String()))
 }
 
-func bindStormPrograms(c *RunCtx, nq, nt int) {
+func bindStormPrograms(c *RunCtx, nq, nt int, dist ...bool) {
 	for v := 0; v < c.Q(nq, nt); v++ {
 		c.Program(fmt.Sprintf("bind-storm/%d", v), func(p *Prog) {
+			bindStormDist = len(dist) > 0 && dist[0]
 			cfg := drawBindStorm(p.Rng)
+			bindStormDist = false
 			p.Explore(func(pl Plan) *Result { return epBindStorm(c, cfg) },
-				ExploreOpts{Base: 4, Noise: c.Q(20, 100), K: c.Q(3, 6), Funcs: []string{"Register", "GetMinLenItem", "GetMaxLenItem", "GetRoundRobinItem", "Manager", "queueManager.next", "processNextJob", "BindQueue", "WithQueue", "bindQueue", "Len", "Count"}, Pairs: c.Q(30, 150), MaxCases: c.Q(200, 3000)})
+				orRace(ExploreOpts{Base: 4, Noise: c.Q(20, 100), K: c.Q(3, 6), Funcs: []string{"Register", "GetMinLenItem", "GetMaxLenItem", "GetRoundRobinItem", "Manager", "queueManager.next", "processNextJob", "BindQueue", "WithQueue", "bindQueue", "Len", "Count"}, Pairs: c.Q(30, 150), MaxCases: c.Q(200, 3000)}))
 		})
 	}
 }
@@ -489,7 +499,18 @@ func cyclesPrograms(c *RunCtx, nq, nt int) {
 		c.Program(fmt.Sprintf("cycles/%d", v), func(p *Prog) {
 			cfg := drawCycles(p.Rng)
 			p.Explore(func(pl Plan) *Result { return epCycles(c, cfg) },
-				ExploreOpts{Base: 4, Noise: c.Q(20, 100), K: c.Q(3, 6), Funcs: []string{"Node.Serve", "Node.Stop", "initPoolNode", "stopAndRemoveAllWorkers", "Restart", "Stop", "stop", "start", "startLocked", "closeChannels", "goEventLoop", "goRemoveIdleWorkers", "stopTickers", "Cache", "Put", "Get"}, Pairs: c.Q(30, 150), MaxCases: c.Q(200, 3000)})
+				orRace(ExploreOpts{Base: 4, Noise: c.Q(20, 100), K: c.Q(3, 6), Funcs: []string{"Node.Serve", "Node.Stop", "initPoolNode", "stopAndRemoveAllWorkers", "Restart", "Stop", "stop", "start", "startLocked", "closeChannels", "goEventLoop", "goRemoveIdleWorkers", "stopTickers", "Cache", "Put", "Get"}, Pairs: c.Q(30, 150), MaxCases: c.Q(200, 3000)}))
 		})
 	}
+}
+
+// raceOpts, when set (race regime), replaces the exploration options of the families above: the race
+// build is an order of magnitude slower, and its verdict comes from the detector, not from the oracles.
+var raceOpts *ExploreOpts
+
+func orRace(o ExploreOpts) ExploreOpts {
+	if raceOpts != nil {
+		return *raceOpts
+	}
+	return o
 }
